@@ -755,25 +755,7 @@ func (f *File) Truncate(size int64) error {
 		return err
 	}
 
-	oldSize, err := f.writeBuf.Size()
-	if err != nil {
-		return err
-	}
-
-	if size > oldSize {
-		if err := f.writeBuf.Truncate(0); err != nil {
-			return err
-		}
-
-		for i := int64(0); i < size; i++ {
-			if _, err := f.writeBuf.Write(make([]byte, 1)); err != nil {
-				return err
-			}
-		}
-
-		return nil
-	}
-
+	// Both write caches keep the content in front of the new size and fill up with zeros behind the old one
 	if err := f.writeBuf.Truncate(size); err != nil {
 		return err
 	}
